@@ -108,16 +108,28 @@ impl<'a> SpannedDiagnosticFormatter<'a> {
         let mut out = String::new();
         let (start_byte, end_byte) = self.nlc().span_line_bytes(span);
         // Produce an underline underneath a span which may cover multiple lines, and a message on the last line.
-        let mut source_lines = self.src[start_byte..end_byte].lines().peekable();
+        // `lines()` yields nothing for an empty string, but a span on an empty line (e.g. at the
+        // end of a text that ends in a newline) still has a line to show and a message to print.
+        // (`end_byte` is the last line's newline, if it has one: with it `lines()` sees a CR LF
+        // terminator whole.)
+        let end_incl = (end_byte + 1).min(self.src.len());
+        let mut source_lines = self.src[start_byte..end_incl].lines().collect::<Vec<_>>();
+        if source_lines.is_empty() {
+            source_lines.push("");
+        }
+        let mut source_lines = source_lines.into_iter().peekable();
         while let Some(source_line) = source_lines.next() {
-            let (line_start_byte, _) = self.nlc().span_line_bytes(span);
+            let (line_start_byte, line_end_byte) = self
+                .nlc()
+                .span_line_bytes(Span::new(span.start(), span.start()));
             let span_offset_from_start = span.start() - line_start_byte;
 
             // An underline bounded by the current line.
             let underline_span = Span::new(
                 span.start(),
                 span.end()
-                    .min(span.start() + (source_line.len() - span_offset_from_start)),
+                    // (A span may start in the line terminator, which `source_line` has lost.)
+                    .min(span.start() + source_line.len().saturating_sub(span_offset_from_start)),
             );
             let (line_num, _) = self
                 .nlc()
@@ -149,7 +161,8 @@ impl<'a> SpannedDiagnosticFormatter<'a> {
             } else {
                 // Otherwise set next span to start at the beginning of the next line.
                 out.push('\n');
-                span = Span::new(line_start_byte + source_line.len() + 1, span.end())
+                // (`source_line` has lost its line terminator, which may be two bytes long.)
+                span = Span::new(line_end_byte + 1, span.end())
             }
         }
 
